@@ -114,6 +114,11 @@ impl TopDownContext<'_, '_> {
   /// - Its output type has not changed.
   /// - All its dependencies are consistent.
   fn check_task<O: Any>(&mut self, src: &TaskNode) -> Option<&O> {
+    // A task without output is new, or its previous execution was aborted by a panic. In the latter case it can still
+    // have dependencies (including reserved ones) from the aborted execution, which must not be checked: execute it.
+    if self.session.store.get_task_output(src).is_none() {
+      return None;
+    }
     let dependencies: Box<[Dependency]> = self.session.store
       .get_dependencies_from_task(src)
       .map(|d| d.clone())
